@@ -685,6 +685,20 @@ def ondemand_replay(res, rng, q, wd):
         res.violation("ondemand_replay", dict(check="ondemand_replay", graph={k: small[x["gi"] - 1][k] for k in ("n", "init", "succ", "inb")}, behaviour=x))
     res.traces += len(flat)
     res.notes.append("OnDemand.tla: %d request sequences enumerated by TLC replayed into the real on-demand checker" % len(flat))
+    # design level: the worker loop of on_demand.rs (channels, pending / targetted queues, blocks, market visits) for 1-2
+    # workers, every request sequence and every interleaving: safety + liveness; for one worker the quiescent outcome is
+    # exactly OnDemand.tla's, for two it is a superset (strict equality must FAIL: stale requests queued at an idle worker)
+    gp2 = os.path.join(wd, "odw-graphs.ndjson")
+    write_ndjson(gp2, small[: (7 if q else 16)])
+    for cfg in ("OnDemandWorkers_1w", "OnDemandWorkers_2w"):
+        r = run_tlc("OnDemandWorkers.tla", "cfg/%s.cfg" % cfg, env=dict(GRAPHS=gp2), workers=8, timeout=3000, heap="10g", name=cfg)
+        res.add_tlc(r, cfg)
+        if not r["ok"]:
+            raise ToolError("%s: %s violated on the SPEC of the on-demand worker loop\n%s" % (cfg, r["violated"], r["out"][-3000:]))
+    r = run_tlc("OnDemandWorkers.tla", "cfg/OnDemandWorkers_2w_strict.cfg", env=dict(GRAPHS=gp2), workers=8, timeout=3000, heap="10g", name="odw-strict")
+    res.notes.append("self-check: with two workers the outcome of a request sequence is %s" % (
+        "not always the sequential one (StrictlySequential violated, as expected: a request queued at an idle worker is honoured later)"
+        if r["violated"] == "StrictlySequential" else "the sequential one on this corpus (%s)" % r["violated"]))
 
 
 def example_single_copy(res, clients=(2,)):
